@@ -247,7 +247,9 @@ def _test_one(m):
     subprocess.run(["rsync", "-a", "--exclude", ".git", "--exclude", "__pycache__", "--exclude", "*.nbi", "--exclude", "*.nbc",
                     ROOT + "/", d + "/"], check=True)
     open(os.path.join(d, m["file"]), "w", encoding="utf-8").write(mutated_source(m))
-    env = dict(os.environ, NUMBA_CACHE_DIR=d + "/.nc", PYTHONDONTWRITEBYTECODE="1")
+    os.makedirs(d + "/.tmp", exist_ok=True)
+    # the suite leaves its temporary files behind (about 70 MB per run): keep them inside the scratch copy
+    env = dict(os.environ, NUMBA_CACHE_DIR=d + "/.nc", PYTHONDONTWRITEBYTECODE="1", TMPDIR=d + "/.tmp")
     cmd = ["/venv/bin/python", "-m", "pytest", "-x", "-q", "-p", "no:cacheprovider", "--timeout=600", "dataiter/test"]
     for t in DESELECT:
         cmd += ["--deselect", t]
